@@ -292,7 +292,7 @@ func corruptHarness(rc *RunCtx) {
 			if err := env.tr.Open(); err != nil {
 				infra = "reopen: " + err.Error()
 			}
-			env.client = simsvc.NewFSimSvcClient(frugal.NewFServiceProvider(env.tr, env.pf))
+			env.client = simsvc.NewFLeafClient(frugal.NewFServiceProvider(env.tr, env.pf))
 		case "simple-server":
 			bad, w := corruptFrame(rc, reqFrame, true)
 			what = w
